@@ -1,7 +1,7 @@
 (** Pinned statements of the C10 property theorems: compiled on every check, so a theorem
     cannot be weakened silently. *)
 From V Require Import Base.Util Gql.Ast Writer.Wop Ts.TsType Ts.TsDen
-  C10.Model C10.Spec C10.DenLemmas C10.Proofs C10.Proofs2 C10.JsdocProofs C10.NameProofs C10.ResolverProofs C10.Properties.
+  C10.Model C10.Spec C10.DenLemmas C10.Decide C10.Proofs C10.Proofs3 C10.Proofs2 C10.JsdocProofs C10.NameProofs C10.ResolverProofs C10.Properties.
 
 Check (C10_alias_exact :
   forall o doc nss t T body f v b,
@@ -9,6 +9,14 @@ Check (C10_alias_exact :
   applicable doc t T = true -> alias_of (namespace_of nss t) T = Some body ->
   has_type_b (ns_env (namespace_of nss t)) f body v = Some b -> Ref o doc t T v = b).
 Print Assumptions C10_alias_exact.
+
+Check (C10_alias_exact_iff :
+  forall o doc nss t T body v,
+  wf_schema o doc = true -> schema_decls o doc = Ok nss ->
+  applicable doc t T = true -> alias_of (namespace_of nss t) T = Some body ->
+  (In_type (ns_env (namespace_of nss t)) body v <-> Ref o doc t T v = true)
+  /\ (NotIn_type (ns_env (namespace_of nss t)) body v <-> Ref o doc t T v = false)).
+Print Assumptions C10_alias_exact_iff.
 
 Check (C10_alias_present :
   forall o doc nss t T td,
